@@ -1,15 +1,20 @@
 #!/bin/bash
-# For every /verif/seeded/<id>: apply the patch to a scratch copy of /repo, run the owner
-# property's quick check against it; if it is not caught, try every other property.
+# For every /verif/seeded/<id>: apply the patch to a scratch copy of a snapshot of /repo's working
+# tree, run the owner property's quick check against it; with ALLPROPS=1 a seed the owner misses is
+# also tried against every other property.
 cd /verif
 ALL="C01 C02 C03 C04 C05 C06 C07 C08 C09 C11 C12 C13 C14 C15 C16 C17 C18 C19 C20"
+if [ -z "${MUT_SRC:-}" ]; then
+  SNAP=$(mktemp -d /tmp/seedsnap.XXXXXX); trap 'rm -rf "$SNAP"' EXIT
+  rsync -a --exclude .git /repo/ "$SNAP/"; export MUT_SRC=$SNAP
+fi
 for d in seeded/*/; do
   id=$(basename $d); prop=${id%-*}
   [ -n "${1:-}" ] && [ "$1" != "$id" ] && continue
   caught=""; obl=""
   out=$(tools/mut.sh /verif/$d/patch.diff -- check $prop 2>&1)
   if echo "$out" | grep -q "^VIOLATION"; then caught=$prop; obl=$(echo "$out" | grep "^VIOLATION" | sed 's/.*obligation=\([^ ]*\).*/\1/' | sort -u | head -4 | paste -sd' '); fi
-  if [ -z "$caught" ]; then
+  if [ -z "$caught" ] && [ -n "${ALLPROPS:-}" ]; then
     for p in $ALL; do [ $p = $prop ] && continue
       out=$(tools/mut.sh /verif/$d/patch.diff -- check $p 2>&1)
       if echo "$out" | grep -q "^VIOLATION"; then caught="$caught $p"; obl="$obl $(echo "$out" | grep "^VIOLATION" | sed 's/.*obligation=\([^ ]*\).*/\1/' | sort -u | head -2 | paste -sd' ')"; fi
